@@ -27,7 +27,9 @@ RULE = (
     "unset tracked fields are excluded as the property says) x settings.serialization.exclude_defaults x exclude_none "
     "(global, set and restored by the driver) x aliaser x additional_properties: serialize(T, v) must validate against "
     "serialization_schema(T) generated under the same settings; structurally every `required` key must be emitted for "
-    "every enumerated value and every emitted key must be declared or allowed. distinct_nontrivial counts distinct "
+    "every enumerated value and every emitted key must be declared or allowed; plus source worlds of converted types "
+    "(registered / dynamic / field conversions, generic conversions, a collection-like class with a registered conversion "
+    "under a dynamic conversion on its elements) in the contexts T / List / Dict / Optional. distinct_nontrivial counts distinct "
     "(ctor-pair shape, settings, value index, emitted key set) tuples."
 )
 
@@ -106,7 +108,7 @@ def run_type(i, label, spec, tier, st):
                     if mr is not UNSPEC and not mr.ok and any(m and "Properties)" in m for _, m in mr.e.flat()):
                         st.count("value_violates_object_constraint")
                         continue
-                keys = tuple(sorted(out)) if isinstance(out, dict) else type(out).__name__
+                keys = tuple(sorted(map(repr, out))) if isinstance(out, dict) else type(out).__name__
                 st.case(dc.shape_of(label), (ed, en, al, ap), vi, keys)
                 if not validator.is_valid(out):
                     kwd = deciding_keyword(validator, out)
@@ -129,7 +131,61 @@ def run_type(i, label, spec, tier, st):
     dc.periodic_reset(i)
 
 
+def run_conversion_worlds(st):
+    """types reached through conversions (registered, dynamic, field metadata, generic, collection-like classes):
+    the serialized value must validate against the serialization schema built with the same arguments"""
+    import sys
+    from typing import Dict, List, Optional
+
+    from ..realize import PRELUDE, exec_source
+    from .c12 import SPECIAL
+
+    m = exec_source(PRELUDE + SPECIAL)
+    try:
+        apischema.serializer(m.path_to_list)
+        apischema.serializer(m.unwrap)
+        apischema.serializer(m.unbox)
+        apischema.serializer(m.ka_to_int)
+        pts = [m.Pt(0, 0), m.Pt(1, 2)]
+        path = m.PtPath(*pts)
+        cases = [
+            ("PtPath", m.PtPath, path, {}),
+            ("PtPath+dynamic", m.PtPath, path, {"conversion": m.pt_to_str}),
+            ("List[PtPath]+dynamic", List[m.PtPath], [path], {"conversion": m.pt_to_str}),
+            ("Dict[PtPath]+dynamic", Dict[str, m.PtPath], {"k": path}, {"conversion": m.pt_to_str}),
+            ("Optional[PtPath]+dynamic", Optional[m.PtPath], path, {"conversion": m.pt_to_str}),
+            ("Drawing(field conversion)", m.Drawing, m.Drawing("d", path, m.PtPath(m.Pt(3, 4))), {}),
+            ("List[Pt]+dynamic", List[m.Pt], pts, {"conversion": m.pt_to_str}),
+            ("Wrapper[int]", m.Wrapper[int], m.Wrapper([1, 2]), {}),
+            ("Wrapper[Pt]+dynamic", m.Wrapper[m.Pt], m.Wrapper(pts), {"conversion": m.pt_to_str}),
+            ("Box[Pt]", m.Box[m.Pt], m.Box(m.Pt(1, 2)), {}),
+            ("List[Box[int]]", List[m.Box[int]], [m.Box(1)], {}),
+            ("KA", m.KA, m.KA(3), {}),
+            ("Dict[KA]", Dict[str, m.KA], {"k": m.KA(3)}, {}),
+        ]
+        for name, tp, v, kw in cases:
+            for al in ("id", "camel"):
+                kw2 = dict(kw, aliaser=dc.IMPL_ALIASERS[al])
+                st.case("conversion_world", name, al)
+                try:
+                    schema = serialization_schema(tp, **kw2)
+                    out = apischema.serialize(tp, v, **kw2)
+                except Exception as e:
+                    st.violation({"label": "world:" + name, "signature": {"kind": "world_exception", "world": name, "exc": type(e).__name__}, "what": f"{name}: {e!r}"[:300]})
+                    continue
+                validator = Draft202012Validator(schema)
+                if not validator.is_valid(out):
+                    st.violation({"label": "world:" + name, "signature": {"kind": "invalid_output", "world": name, "keyword": deciding_keyword(validator, out)}, "what": f"{name}: serialize gives {out!r} which does not validate against {json.dumps(schema)[:300]}"[:600]})
+    finally:
+        sys.modules.pop(m.__name__, None)
+        apischema.cache.reset()
+
+
 def work(tier, widx, nworkers, st, extra):
+    import os
+
+    if widx == 0 and os.environ.get("VERIF_ONLY") in (None, "", "world"):
+        run_conversion_worlds(st)
     try:
         for i, label, spec in dc.my_types(tier, widx, nworkers):
             run_type(i, label, spec, tier, st)
